@@ -259,9 +259,24 @@ def mk(a: np.ndarray, dtype) -> SymTensor:
 # ------------------------------------------------------------------------------------------------
 # SymScalar: python-level symbolic number (result of .item()/.tolist(), iteration of 0-d values, ...)
 # ------------------------------------------------------------------------------------------------
+def _np_elementwise(method):
+    """binary operator of SymScalar extended to numpy (object) arrays on the other side: elementwise"""
+
+    def f(self, o):
+        if isinstance(o, np.ndarray):
+            out = np.empty(o.shape, dtype=object)
+            for idx in np.ndindex(*o.shape):
+                out[idx] = method(self, o[idx])
+            return out
+        return method(self, o)
+
+    return f
+
+
 class SymScalar:
     __slots__ = ("term", "dtype")
     __array_priority__ = 1000
+    __array_ufunc__ = None  # numpy defers `array <op> SymScalar` to the reflected method below
 
     def __init__(self, term, dtype):
         self.term = term
@@ -422,6 +437,10 @@ def sym_int(x):
         r = z3.fpToReal(t) if z3.is_fp(t) else t
         return SymScalar(z3.If(r >= 0, z3.ToInt(r), -z3.ToInt(-r)), torch.int64)
     return builtins.int(x)
+
+
+for _m in ("__eq__", "__ne__", "__lt__", "__le__", "__gt__", "__ge__", "__add__", "__radd__", "__sub__", "__rsub__", "__mul__", "__rmul__", "__truediv__", "__rtruediv__"):
+    setattr(SymScalar, _m, _np_elementwise(getattr(SymScalar, _m)))
 
 
 def scalar_out(term, dtype):
@@ -966,6 +985,8 @@ def _setitem(a, idx, value):
             "in-place write of a symbolic value into a real tensor (the harness must provide a symbolic "
             "container via the factory stubs)"
         )
+    if isinstance(idx, tuple) and len(idx) >= 1 and all(i is Ellipsis for i in idx[1:]) and isinstance(idx[0], SymTensor) and idx[0].dtype == torch.bool:
+        idx = idx[0]  # t[mask, ...] = v  with a full-shape mask
     if _symbolic_mask(idx, a.sym.shape):
         v = to_terms(value, a.dtype)
         if isinstance(value, SymTensor) and getattr(value, "_masked_by", None) is not None:
